@@ -162,7 +162,11 @@ where
 
     #[inline]
     fn next(&mut self) -> Option<Self::Item> {
-        self.iter.next()
+        let item = self.iter.next();
+        if item.is_some() {
+            self.len = self.len.saturating_sub(1);
+        }
+        item
     }
 
     fn size_hint(&self) -> (usize, Option<usize>) {
@@ -178,7 +182,11 @@ where
 {
     #[inline]
     fn next_back(&mut self) -> Option<Self::Item> {
-        self.iter.next_back()
+        let item = self.iter.next_back();
+        if item.is_some() {
+            self.len = self.len.saturating_sub(1);
+        }
+        item
     }
 }
 
